@@ -97,7 +97,11 @@ def gen_case(rnd, thorough):
             ops.append(["reopen"])
         else:
             ops.append(["recreate"])
-    return {"cols": cols, "rows": rows, "create": create, "ops": ops}
+    # several Python objects for the frame: each op goes through one of them (last field of the op), is observed
+    # through another, and all must agree
+    for o in ops:
+        o.append(rnd.randrange(4))
+    return {"cols": cols, "rows": rows, "create": create, "ops": ops, "multi": True}
 
 
 def parse_obs(o):
@@ -221,17 +225,8 @@ def top(o):
     return "TRecreate" if t == "recreate" else "TReopen"
 
 
-def run(ctx):
-    rnd = random.Random(ctx.seed)
-    thorough = ctx.tier == "thorough"
-    st = core.proof_stage(ctx, [], ["Pure/TableCheck.vo", "Props/C16.vo"], "Props/C16.v", THEOREMS)
-    ctx.trusted_base = [
-        "Coq 8.16.1 kernel; no native_compute",
-        "hand-written table model Pure/Table.v of nixio/data_frame.py, tied by correspondence on histories (this run); cells are "
-        "opaque integers (bit patterns / pool indices); only values of the column's own type are written (numpy casting not modelled)",
-    ]
-    ctx.assumptions = ["every property theorem: Closed under the global context"]
-    cases = [gen_case(rnd, thorough) for _ in range(3000 if thorough else 300)]
+def table_eval(ctx, st, cases):
+    """runs the cases on the implementation, compares with the model; returns (failures, disagreements)"""
     impl = ctx.run_impl("impl_table.py", {"cases": cases}, timeout=3000)
     terms, inputs, failures, all_obs = [], [], [], []
     for c, r in zip(cases, impl):
@@ -249,7 +244,8 @@ def run(ctx):
         bad = [(i, o[0]) for i, o in enumerate(obs) if o[0] >= 25]
         if bad:
             i, code = bad[0]
-            failures.append((("a read path (read_rows / read_columns / read_cell) disagrees with the table or raises" if code >= 100 else
+            failures.append((("a change made through one object of the frame is not what another object of the same frame shows" if code >= 400 else
+                              "a read path (read_rows / read_columns / read_cell) disagrees with the table or raises" if code >= 100 else
                               "row/column counts or names do not describe the stored table" if code >= 50 else
                               "the data frame's id, name or type changed"),
                              dict(inp, ops=c["ops"][:i]), {"code": code}))
@@ -273,6 +269,38 @@ def run(ctx):
                 disagreements.append(inp)
     else:
         st["broken"].append("model Pure/TableCheck.v does not build")
+    return failures, disagreements
+
+
+def frame_stage(ctx, st, n, what):
+    """data-frame histories through several Python objects of one frame, for the properties about aliases (C05) and
+    about reopening (C02): any failure or disagreement is reported under the calling property"""
+    rnd = random.Random(ctx.seed + 4242)
+    cases = [gen_case(rnd, False) for _ in range(n)]
+    failures, disagreements = table_eval(ctx, st, cases)
+    if failures and not ctx.violations:
+        failures.sort(key=lambda x: len(repr(x[1])))
+        kind, inp, r = failures[0]
+        rp = ctx.write_replay("%s-frames-seed%d.json" % (ctx.prop, ctx.seed), {"property": ctx.prop, "kind": kind, "input": inp, "observed": r,
+                                                                                "count": len(failures)})
+        ctx.violation("%d data-frame histories through several objects of one frame violate %s (%s), e.g. %s" % (len(failures), ctx.prop, what, kind), rp)
+    elif disagreements:
+        st["broken"].append("correspondence: the table model and the implementation disagree on %d multi-object data-frame histories" % len(disagreements))
+    return {"frame_histories": n, "frame_failures": len(failures), "frame_disagreements": len(disagreements)}
+
+
+def run(ctx):
+    rnd = random.Random(ctx.seed)
+    thorough = ctx.tier == "thorough"
+    st = core.proof_stage(ctx, [], ["Pure/TableCheck.vo", "Props/C16.vo"], "Props/C16.v", THEOREMS)
+    ctx.trusted_base = [
+        "Coq 8.16.1 kernel; no native_compute",
+        "hand-written table model Pure/Table.v of nixio/data_frame.py, tied by correspondence on histories (this run); cells are "
+        "opaque integers (bit patterns / pool indices); only values of the column's own type are written (numpy casting not modelled)",
+    ]
+    ctx.assumptions = ["every property theorem: Closed under the global context"]
+    cases = [gen_case(rnd, thorough) for _ in range(3000 if thorough else 300)]
+    failures, disagreements = table_eval(ctx, st, cases)
     if failures:
         failures.sort(key=lambda x: len(repr(x[1])))
         what, inp, r = failures[0]
